@@ -409,10 +409,13 @@ def render(schema_name, insts, layout_rng=None, working=None):
     if layout_rng is None:
         sp = lambda: ""
     else:
-        sp = lambda: layout_rng.choice(["", "", "", " ", "\n  ", " /* c */ "])
+        # white space only: a comment between a value and its delimiter, or inside an aggregate, trips a reader
+        # defect that belongs to C01 (DESIGN section 6 row 19); comments are put between instances instead
+        sp = lambda: layout_rng.choice(["", "", "", " ", "\n  ", "\t"])
     if working is None:
         out = ["ISO-10303-21;", HEADER.replace("{S}", schema_name.upper()).rstrip("\n"), "DATA;"]
-        out += [render_inst(i, sp) for i in insts]
+        out += [(("/* c%d */ " % n) if layout_rng is not None and layout_rng.random() < 0.3 else "") + render_inst(i, sp)
+                for n, i in enumerate(insts)]
         out += ["ENDSEC;", "END-ISO-10303-21;"]
     else:
         out = ["STEP_WORKING_SESSION;", HEADER.replace("{S}", schema_name.upper()).rstrip("\n"), "DATA;"]
